@@ -54,7 +54,8 @@ type DB struct {
 	tick      int64
 	skew      time.Duration
 	eventCtr  *uint64 // shared global event counter (owned by World)
-	hashLogs  map[string]bool
+	// chooseVictim picks which member of a wait-for cycle of n sessions is aborted (0 = the closer)
+	chooseVictim func(n int) int
 }
 
 type advLock struct {
@@ -94,6 +95,8 @@ type Session struct {
 	waitAdv string
 	// implicit single-statement transaction in progress
 	implicit bool
+	// chosen as the victim of a deadlock while waiting
+	victim bool
 }
 
 var (
@@ -389,6 +392,17 @@ func (s *Session) stmt(task string, fn func() error) error {
 	if s.dead {
 		return errSessionDead
 	}
+	if s.victim {
+		s.victim = false
+		s.waitRow, s.waitAdv = nil, ""
+		if s.implicit {
+			s.implicit = false
+			s.rollbackAllLocked()
+		} else if s.inTx() {
+			s.top().aborted = true
+		}
+		return pgErr("40P01", "deadlock detected", "")
+	}
 	implicit := false
 	if !s.inTx() {
 		s.beginLocked("")
@@ -405,7 +419,21 @@ func (s *Session) stmt(task string, fn func() error) error {
 	if errors.As(err, &wb) {
 		// keep partial locks; the statement will be retried
 		s.waitRow, s.waitAdv = wb.row, wb.adv
-		if victim := db.deadlockLocked(s); victim {
+		victim := false
+		if cycle := db.cycleLocked(s); len(cycle) > 0 {
+			// which member of the cycle PostgreSQL aborts depends on whose deadlock timer fires first:
+			// it is a scheduler decision
+			idx := 0
+			if db.chooseVictim != nil {
+				idx = db.chooseVictim(len(cycle))
+			}
+			if idx == 0 {
+				victim = true
+			} else {
+				cycle[idx].victim = true
+			}
+		}
+		if victim {
 			s.waitRow, s.waitAdv = nil, ""
 			err = pgErr("40P01", "deadlock detected", "")
 			if implicit {
@@ -460,10 +488,11 @@ func (s *Session) failStmt() {
 	}
 }
 
-// deadlockLocked reports whether s, now waiting, closes a wait-for cycle.
-func (db *DB) deadlockLocked(s *Session) bool {
+// cycleLocked returns the sessions of the wait-for cycle that s, now waiting, closes (s first), or nil.
+func (db *DB) cycleLocked(s *Session) []*Session {
 	seen := map[*Session]bool{}
 	cur := s
+	path := []*Session{s}
 	for {
 		var holder *Session
 		if cur.waitRow != nil {
@@ -474,15 +503,16 @@ func (db *DB) deadlockLocked(s *Session) bool {
 			}
 		}
 		if holder == nil || holder == cur {
-			return false
+			return nil
 		}
 		if holder == s {
-			return true
+			return path
 		}
 		if seen[holder] {
-			return false
+			return nil
 		}
 		seen[holder] = true
+		path = append(path, holder)
 		cur = holder
 	}
 }
@@ -493,6 +523,9 @@ func (s *Session) canProceed() bool {
 	db.mu.Lock()
 	defer db.mu.Unlock()
 	if s.dead {
+		return true
+	}
+	if s.victim {
 		return true
 	}
 	if s.waitRow != nil {
